@@ -43,3 +43,9 @@ reg("C14",
                "boolean form of the property is evaluated on the implementation's own outputs (panic = violation).",
     assumptions=["ids free of ':' and heights < 2^64 (cursor_ok), equal ids imply equal heights (alias_ok) for the unchanged round trip"],
     )
+
+
+# per-property configuration modules driver/props_Cxx.py register themselves through reg()
+import glob as _glob, importlib as _importlib, os as _os
+for _f in sorted(_glob.glob(_os.path.join(_os.path.dirname(_os.path.abspath(__file__)), "props_C*.py"))):
+    _importlib.import_module(_os.path.basename(_f)[:-3])
